@@ -249,6 +249,12 @@ def rule_object_list(ctx: Ctx) -> None:
         return
     ctx.require(len(lps) == 2, f"interpolate_object_list: expected two top-level loops, found {len(lps)}")
     l1, l2 = sorted(lps, key=lambda e: e.node.lineno)
+    # must-pass-through: every returning path runs BOTH loops
+    for p in paths:
+        nodes = {id(e.node) for e in p.effects if e.kind == "loop"}
+        ctx.check(id(l1.node) in nodes and id(l2.node) in nodes, "C17-object-list", "interpolate_object_list", f"all-paths-visit-both-lists:{len(p.conds)}",
+                  f"the function can return on [{strip_v(p.cond_text())[:120]}] without visiting {'the second' if id(l2.node) not in nodes else 'the first'} object list: objects present in only one neighbour are dropped",
+                  fi=fi, expected="both loops on every returning path", found=strip_v(p.cond_text())[:160])
     ctx.check(S(l1.text) == "object_list1" and S(l2.text) == "object_list2", "C17-object-list", "interpolate_object_list", "loops", f"loops iterate {S(l1.text)} then {S(l2.text)}", fi=fi)
     o1 = U(l1.node.target)
     n_found = n_missing = 0
